@@ -124,13 +124,23 @@ class Pool:
         for c in self.children:
             c.kill()
 
+    MAX_TIMEOUTS = 4          # circuit breaker: after this many deadlines missed, no further job is started
+
+    def tripped(self) -> bool:
+        return self.timeouts >= self.MAX_TIMEOUTS
+
     def map(self, jobs: List[Tuple[str, Tuple[Any, ...], float]]) -> List[Tuple[str, Any]]:
         """jobs: (function name in harness.props.c12, args, timeout seconds) -> results in job order:
-        ("ok", value) | ("raised", text) | ("timeout", seconds) | ("died", returncode)"""
+        ("ok", value) | ("raised", text) | ("timeout", seconds) | ("died", returncode) | ("skipped", None)
+        ("skipped": the circuit breaker tripped -- the library hangs, the check must still end soon)"""
         results: List[Optional[Tuple[str, Any]]] = [None] * len(jobs)
         nxt = 0
         started = {}
         while True:
+            if self.tripped():
+                while nxt < len(jobs):
+                    results[nxt] = ("skipped", None)
+                    nxt += 1
             for c in self.children:
                 if c.job is None and nxt < len(jobs):
                     fn, args, timeout = jobs[nxt]
